@@ -203,7 +203,13 @@ impl<'de> Deserialize<'de> for PrimaryBlock {
                 let mut fragmentation_offset: FragOffsetType = 0;
                 let mut total_data_length: TotalDataLengthType = 0;
 
-                if rest > 1 {
+                // formats without a length prefix (e.g. JSON) give no size hint:
+                // there the fragment flag tells whether the two fragment fields follow
+                let has_fragment_fields = match seq.size_hint() {
+                    Some(remaining) => remaining > 1,
+                    None => bundle_control_flags.contains(BundleControlFlags::BUNDLE_IS_FRAGMENT),
+                };
+                if has_fragment_fields {
                     fragmentation_offset = seq
                         .next_element()?
                         .ok_or_else(|| de::Error::invalid_length(8, &self))?;
